@@ -293,30 +293,30 @@ func itemSpans(b []byte) [][2]int {
 }
 
 var treeSubst = [][]byte{
-	{0xf6},             // null
-	{0x40},             // empty bstr
-	{0x60},             // empty tstr
-	{0x80},             // empty array
-	{0xa0},             // empty map
-	{0x00},             // 0
-	{0x20},             // -1
-	{0xf5},             // true
-	{0xf7},             // undefined
+	{0xf6}, // null
+	{0x40}, // empty bstr
+	{0x60}, // empty tstr
+	{0x80}, // empty array
+	{0xa0}, // empty map
+	{0x00}, // 0
+	{0x20}, // -1
+	{0xf5}, // true
+	{0xf7}, // undefined
 	{0x1b, 0xff, 0xff, 0xff, 0xff, 0xff, 0xff, 0xff, 0xff}, // 2^64-1
 	{0x3b, 0xff, 0xff, 0xff, 0xff, 0xff, 0xff, 0xff, 0xff}, // -2^64
 	{0xfb, 0x3f, 0xf8, 0, 0, 0, 0, 0, 0},                   // 1.5
-	{0xc1, 0x00},       // tagged
-	{0x81, 0xf6},       // [null]
-	{0x82, 0x40, 0x40}, // [h'', h'']
-	{0xa1, 0x00, 0xf6}, // {0: null}
-	{0x41, 0x00},       // h'00'
-	{0x61, 0x61},       // "a"
-	{0x62, 0xc3, 0x28}, // invalid UTF-8 text
-	{0x81, 0xa0},       // [{}]
-	{0x81, 0x80},       // [[]]
-	{0x19, 0xff, 0xff}, // 65535
-	{0x1a, 0x00, 0x01, 0x00, 0x00}, // 65536
-	{0x3a, 0x80, 0x00, 0x00, 0x00}, // -2^31-1
+	{0xc1, 0x00},                                           // tagged
+	{0x81, 0xf6},                                           // [null]
+	{0x82, 0x40, 0x40},                                     // [h'', h'']
+	{0xa1, 0x00, 0xf6},                                     // {0: null}
+	{0x41, 0x00},                                           // h'00'
+	{0x61, 0x61},                                           // "a"
+	{0x62, 0xc3, 0x28},                                     // invalid UTF-8 text
+	{0x81, 0xa0},                                           // [{}]
+	{0x81, 0x80},                                           // [[]]
+	{0x19, 0xff, 0xff},                                     // 65535
+	{0x1a, 0x00, 0x01, 0x00, 0x00},                         // 65536
+	{0x3a, 0x80, 0x00, 0x00, 0x00},                         // -2^31-1
 }
 
 // applyTreeFault mutates the CBOR item tree of payload at node A with variant
@@ -454,10 +454,10 @@ func applyManyMembers(msg []byte, n int, isJSON bool) ([]byte, bool) {
 // ------------------------------------------------------------------ json.member
 
 type jnode struct {
-	kind  byte // 'o' object, 'a' array, 'v' scalar
-	keys  []string
-	kids  []*jnode
-	raw   string // scalar text
+	kind byte // 'o' object, 'a' array, 'v' scalar
+	keys []string
+	kids []*jnode
+	raw  string // scalar text
 }
 
 func parseJSONTree(b []byte) (*jnode, bool) {
